@@ -463,3 +463,6 @@ def run(ctx):
 
     r = ctx.rule("R7", "every evaluator sizes its slot and output rows from the tape and the batch on every call (no grow-only shortcut)", 19)
     ctx.guarded(r, C10_.r1_buffers)
+    # min / max / and / or are computed by the choice functions in every interpreter loop: their value half is part of
+    # "bit for bit the graph's value" (NaN propagation, the sign of a zero passed through `and`)
+    ctx.include('C04', 'the interpreter computes min / max / and / or through the choice functions', only=('R10f', 'R10n'))
